@@ -94,6 +94,7 @@ type Relay struct {
 type Step struct {
 	A   string  `json:"a"` // setup | pay | epoch | block | down | addproj | delproj | addkey | delkey
 	P   string  `json:"p"`
+	Pu  bool    `json:"pu"` // pay: the tx Creator is the all-upper-case spelling of the sender's bech32 address
 	Rs  []Relay `json:"rs"`
 	V   string  `json:"v"`   // setup variant / project name
 	By  string  `json:"by"`  // tx creator for project txs
@@ -348,24 +349,23 @@ type projVer struct {
 }
 
 type state struct {
-	Cur      int               `json:"cur"`
-	Off      int               `json:"off"`
-	Earliest int               `json:"earliest"`
-	Height   int64             `json:"height"`
-	Unique   [][]interface{}   `json:"unique"` // [e, provider, project, spec, session]
-	Pec      []kv              `json:"pec"`    // [e, provider, spec]
-	Pcec     []kv              `json:"pcec"`   // [e, provider, project, spec]
-	Bused    []kv              `json:"bused"`  // [badge, provider]
-	Used     map[string]int64  `json:"used"`   // project -> UsedCu of the version at the current block (-1 = none)
-	Mleft    map[string]int64  `json:"mleft"`  // subscription -> MonthCuLeft (-1 = no subscription)
-	Tracked  []kv              `json:"tracked"`
-	Df       []int64           `json:"df"` // downtime factor per epoch index 0..cur
-	Hs       string            `json:"hs"` // concatenated per-store hashes ("" when not requested)
-	Devmap   [][]string        `json:"devmap,omitempty"` // per epoch index in window (+next): [key -> project]
-	Projects []projVer         `json:"projects,omitempty"`
-	Window   []int             `json:"window,omitempty"`
+	Cur      int              `json:"cur"`
+	Off      int              `json:"off"`
+	Earliest int              `json:"earliest"`
+	Height   int64            `json:"height"`
+	Unique   [][]interface{}  `json:"unique"` // [e, provider, project, spec, session]
+	Pec      []kv             `json:"pec"`    // [e, provider, spec]
+	Pcec     []kv             `json:"pcec"`   // [e, provider, project, spec]
+	Bused    []kv             `json:"bused"`  // [badge, provider]
+	Used     map[string]int64 `json:"used"`   // project -> UsedCu of the version at the current block (-1 = none)
+	Mleft    map[string]int64 `json:"mleft"`  // subscription -> MonthCuLeft (-1 = no subscription)
+	Tracked  []kv             `json:"tracked"`
+	Df       []int64          `json:"df"`               // downtime factor per epoch index 0..cur
+	Hs       string           `json:"hs"`               // concatenated per-store hashes ("" when not requested)
+	Devmap   [][]string       `json:"devmap,omitempty"` // per epoch index in window (+next): [key -> project]
+	Projects []projVer        `json:"projects,omitempty"`
+	Window   []int            `json:"window,omitempty"`
 }
-
 
 func (w *world) project(full bool) state {
 	ts := w.ts
@@ -511,6 +511,7 @@ type relayOut struct {
 type line struct {
 	Ev    string     `json:"ev"`
 	P     string     `json:"p"`
+	Pu    bool       `json:"pu"`
 	Ok    bool       `json:"ok"`
 	Err   string     `json:"err"`
 	Panic bool       `json:"panic"`
@@ -536,7 +537,7 @@ func classify(err string) string {
 
 func (w *world) pay(s Step, full bool) line {
 	ts := w.ts
-	out := line{Ev: "pay", P: s.P, Rs: []relayOut{}}
+	out := line{Ev: "pay", P: s.P, Pu: s.Pu, Rs: []relayOut{}}
 	var relays []*pairingtypes.RelaySession
 	for _, r := range s.Rs {
 		rs := w.buildRelay(r)
@@ -560,6 +561,10 @@ func (w *world) pay(s Step, full bool) line {
 		out.Rs = append(out.Rs, ro)
 	}
 	creator := w.acc[s.P].Addr.String()
+	if s.Pu {
+		// bech32 accepts the all-upper-case spelling: same account, different string
+		creator = strings.ToUpper(creator)
+	}
 	var events sdk.Events
 	res := w.c.Tx(func() error {
 		ts.Ctx = ts.Ctx.WithEventManager(sdk.NewEventManager())
